@@ -218,9 +218,13 @@ func (e *enc) currentNames() map[string]Val {
 	vars := map[string]Val{}
 	for k, v := range e.params {
 		vars[k] = v
+		vars[k+"$0"] = v
 	}
 	for name, vs := range e.dbg {
 		for _, v := range vs {
+			if !e.inScope(v, name, e.curPos) {
+				continue
+			}
 			if in, ok := v.(ssa.Instruction); ok && in.Block() != nil && e.curBlock != nil {
 				if !in.Block().Dominates(e.curBlock) {
 					continue
@@ -529,7 +533,13 @@ func (e *enc) ret(x *ssa.Return) {
 	}
 }
 
-func (e *enc) frameCheck(x *ssa.Return) {
+// frameSpec resolves the modifies clause of the function under verification: state variables that may change
+// entirely (allowed) and, per array-sorted state variable, the first-level indices that may change (locs),
+// evaluated in the entry state.
+func (e *enc) frameSpec() (map[string]bool, map[string][][]string) {
+	if e.frameAllowed != nil {
+		return e.frameAllowed, e.frameLocs
+	}
 	allowed := map[string]bool{"frontier": true}
 	partial := map[string][]Expr{}
 	for _, m := range e.fc.Modifies {
@@ -562,10 +572,7 @@ func (e *enc) frameCheck(x *ssa.Return) {
 	}
 	env := &Env{vars: e.params, cur: e.initSt, old: e.initSt, e: e}
 	// resolve partial locations to (state var, index terms)
-	type loc struct {
-		idx []string
-	}
-	locs := map[string][]loc{}
+	locs := map[string][][]string{}
 	for key, ms := range partial {
 		for _, m := range ms {
 			func() {
@@ -585,7 +592,7 @@ func (e *enc) frameCheck(x *ssa.Return) {
 						for _, a := range mm.Args {
 							idx = append(idx, e.tr(a, env).T)
 						}
-						locs[g.Name] = append(locs[g.Name], loc{idx})
+						locs[g.Name] = append(locs[g.Name], idx)
 						return
 					}
 					v := e.tr(mm.Args[0], env)
@@ -593,59 +600,72 @@ func (e *enc) frameCheck(x *ssa.Return) {
 					case "mapof":
 						dom, val, ln, _, _ := e.mapNames(v.GT.Underlying().(*types.Map))
 						for _, n := range []string{dom, val, ln} {
-							locs[n] = append(locs[n], loc{[]string{v.T}})
+							locs[n] = append(locs[n], []string{v.T})
 						}
 					case "elems":
 						n := e.memName(e.te.SortOf(v.GT.Underlying().(*types.Slice).Elem()))
-						locs[n] = append(locs[n], loc{[]string{"(s-ptr " + v.T + ")"}})
+						locs[n] = append(locs[n], []string{"(s-ptr " + v.T + ")"})
 					case "fields":
 						p := v.GT.Underlying().(*types.Pointer)
 						st := p.Elem().Underlying().(*types.Struct)
 						for i := 0; i < st.NumFields(); i++ {
 							n := e.heapName(p.Elem(), i)
-							locs[n] = append(locs[n], loc{[]string{v.T}})
+							locs[n] = append(locs[n], []string{v.T})
 						}
 					}
 				case *EField:
 					v := e.tr(mm.X, env)
 					p := v.GT.Underlying().(*types.Pointer)
 					n := e.heapName(p.Elem(), e.te.FieldIndex(p.Elem(), mm.Name))
-					locs[n] = append(locs[n], loc{[]string{v.T}})
+					locs[n] = append(locs[n], []string{v.T})
 				}
 			}()
 		}
 		_ = key
 	}
+	e.frameAllowed, e.frameLocs = allowed, locs
+	return allowed, locs
+}
+
+// frameGoal: state variable n, whose current term is cur, agrees with the entry state outside the modifies clause.
+func (e *enc) frameGoal(n, cur string) string {
+	_, locs := e.frameSpec()
+	init := e.getIn(e.initSt, n)
+	s := e.stateSort(n)
+	if !strings.HasPrefix(s, "(Array Int ") {
+		return eq(cur, init)
+	}
+	f0 := e.getIn(e.initSt, "frontier")
+	var excl []string
+	for _, l := range locs[n] {
+		excl = append(excl, "(not (= fr.i "+l[0]+"))")
+	}
+	return "(forall ((fr.i Int)) (! (=> " + and(append([]string{"(< 0 fr.i)", "(< fr.i " + f0 + ")"}, excl...)...) + " (= (select " + cur + " fr.i) (select " + init + " fr.i))) :pattern ((select " + cur + " fr.i))))"
+}
+
+func frameExempt(n string) bool {
+	return strings.HasPrefix(n, "cell.") || strings.HasPrefix(n, "defer.") || strings.HasPrefix(n, "iter.") || n == "frontier"
+}
+
+func (e *enc) frameCheck(x *ssa.Return) {
+	allowed, _ := e.frameSpec()
 	if allowed["*"] {
 		return
 	}
-	f0 := e.getIn(e.initSt, "frontier")
 	var names []string
 	for n := range e.state {
 		names = append(names, n)
 	}
 	sortStrings(names)
 	for _, n := range names {
-		if allowed[n] || strings.HasPrefix(n, "cell.") || strings.HasPrefix(n, "defer.") || strings.HasPrefix(n, "iter.") {
+		if allowed[n] || frameExempt(n) {
 			continue
 		}
 		cur, init := e.state[n], e.getIn(e.initSt, n)
 		if cur == init {
 			continue
 		}
-		s := e.stateSort(n)
-		var goal string
-		if !strings.HasPrefix(s, "(Array Int ") {
-			goal = eq(cur, init)
-		} else {
-			// every pre-existing index outside the listed locations is unchanged
-			var excl []string
-			for _, l := range locs[n] {
-				excl = append(excl, "(not (= fr.i "+l.idx[0]+"))")
-			}
-			goal = "(forall ((fr.i Int)) (=> " + and(append([]string{"(< fr.i " + f0 + ")"}, excl...)...) + " (= (select " + cur + " fr.i) (select " + init + " fr.i))))"
-		}
-		e.oblige("frame", fmt.Sprintf("%s @ret%d", n, e.retOrd), e.fc.frameProps(), "modifies clause: "+n+" unchanged outside the listed locations", goal, x.Pos())
+		e.oblige("frame", fmt.Sprintf("%s @ret%d", n, e.retOrd), e.fc.frameProps(), "modifies clause: "+n+" unchanged outside the listed locations", e.frameGoal(n, cur), x.Pos())
 	}
 }
 
@@ -653,6 +673,29 @@ func (e *enc) frameCheck(x *ssa.Return) {
 func (e *enc) stateVarByName(n string) string {
 	if _, ok := e.sorts[n]; ok {
 		return n
+	}
+	// element memories and map arrays over the basic sorts are registered on demand:
+	// Mem.<Sort>, MapDom.<K>.<V>, MapVal.<K>.<V>, MapLen.<K>.<V>
+	basic := map[string]bool{"Int": true, "Bool": true, "String": true, "Real": true, "Slice": true, "Iface": true, "RVal": true, "RType": true}
+	if strings.HasPrefix(n, "Mem.") && basic[n[4:]] {
+		e.regState(n, "(Array Int (Array Int "+n[4:]+"))")
+		return n
+	}
+	for _, pre := range []string{"MapDom.", "MapVal.", "MapLen."} {
+		if strings.HasPrefix(n, pre) {
+			kv := strings.Split(n[len(pre):], ".")
+			if len(kv) == 2 && basic[kv[0]] && basic[kv[1]] {
+				switch pre {
+				case "MapDom.":
+					e.regState(n, "(Array Int (Array "+kv[0]+" Bool))")
+				case "MapVal.":
+					e.regState(n, "(Array Int (Array "+kv[0]+" "+kv[1]+"))")
+				default:
+					e.regState(n, "(Array Int Int)")
+				}
+				return n
+			}
+		}
 	}
 	if strings.HasPrefix(n, "H.") {
 		rest := n[2:]
@@ -781,7 +824,7 @@ func (e *enc) appendOp(c *ssa.CallCommon, args []Val, site ssa.Instruction) Val 
 	} else {
 		n = "(s-len " + x.T + ")"
 		xm := e.get(mem)
-		elemAt = func(i string) string { return sel(xm, "(s-ptr "+x.T+")", "(+ (s-off "+x.T+") "+i+")") }
+		elemAt = func(i string) string { return sel(xm, "(s-ptr "+x.T+")", "(sidx (s-off "+x.T+") "+i+")") }
 	}
 	name := "app"
 	if v, ok := site.(ssa.Value); ok {
@@ -804,7 +847,7 @@ func (e *enc) appendOp(c *ssa.CallCommon, args []Val, site ssa.Instruction) Val 
 		// in-place: store k elements after the old ones; fresh: copy prefix + k elements
 		inplace := oldArr
 		for i := 0; i < k; i++ {
-			inplace = "(store " + inplace + " (+ (s-off " + s.T + ") (s-len " + s.T + ") " + fmt.Sprint(i) + ") " + elemAt(fmt.Sprint(i)) + ")"
+			inplace = "(store " + inplace + " (sidx (s-off " + s.T + ") (+ (s-len " + s.T + ") " + fmt.Sprint(i) + ")) " + elemAt(fmt.Sprint(i)) + ")"
 		}
 		e.assumeHere(implies(fitsC, eq(arr, inplace)))
 	} else {
